@@ -185,11 +185,16 @@ func (c *Sender) Request(cmdClassifier model.CmdClassifierType, senderAddress, d
 		datagram.Header.AckRequest = &ackRequest
 	}
 
+	// remember the request before it is sent, the response may be processed
+	// before sending returns and has to find the request to clear it
+	if len(hash) > 0 {
+		c.addMsgCounterHashToCache(*msgCounter, hash)
+	}
+
 	err := c.sendSpineMessage(datagram)
-	if err == nil {
-		if len(hash) > 0 {
-			c.addMsgCounterHashToCache(*msgCounter, hash)
-		}
+	if err != nil {
+		// a request that was not sent will not be answered
+		c.ProcessResponseForMsgCounterReference(msgCounter)
 	}
 
 	return msgCounter, err
